@@ -22,35 +22,35 @@ type AttView struct {
 }
 
 type ChainView struct {
-	Name        string
-	Oracles     map[string]cctypes.Oracle // by oracle bech32
-	OracleList  []cctypes.Oracle
-	ByBridger   map[string]string // bridger bech32 -> oracle bech32
-	ByExternal  map[string]string // external addr -> oracle bech32
-	Approved    []string
-	TotalPower  sdkmath.Int
-	LastObs     uint64
-	ObsExtH     uint64
-	ObsFxH      uint64
-	OracleNonce map[string]uint64 // explicit per-oracle cursor (only if stored)
-	Atts        []AttView
-	OracleSets  []cctypes.OracleSet
-	SetConfirms map[uint64]map[string]cctypes.MsgOracleSetConfirm // nonce -> oracle bech32
-	LatestSet   uint64
+	Name           string
+	Oracles        map[string]cctypes.Oracle // by oracle bech32
+	OracleList     []cctypes.Oracle
+	ByBridger      map[string]string // bridger bech32 -> oracle bech32
+	ByExternal     map[string]string // external addr -> oracle bech32
+	Approved       []string
+	TotalPower     sdkmath.Int
+	LastObs        uint64
+	ObsExtH        uint64
+	ObsFxH         uint64
+	OracleNonce    map[string]uint64 // explicit per-oracle cursor (only if stored)
+	Atts           []AttView
+	OracleSets     []cctypes.OracleSet
+	SetConfirms    map[uint64]map[string]cctypes.MsgOracleSetConfirm // nonce -> oracle bech32
+	LatestSet      uint64
 	LastSlashedSet uint64
-	LastObsSet  *cctypes.OracleSet
-	Pool        []cctypes.OutgoingTransferTx
-	Batches     []cctypes.OutgoingTxBatch
-	BatchBlocks []cctypes.OutgoingTxBatch
-	BatchConfirms map[string]map[string]cctypes.MsgConfirmBatch // token|nonce -> oracle
-	Calls       []cctypes.OutgoingBridgeCall
-	CallIdx     map[string]bool
-	CallConfirms map[uint64]map[string]cctypes.MsgBridgeCallConfirm
-	CallFromMsg map[uint64]bool
-	Pending     map[uint64]cctypes.ExternalClaim
-	Seq         map[string]uint64
-	BridgeDenoms map[string]string
-	Params      cctypes.Params
+	LastObsSet     *cctypes.OracleSet
+	Pool           []cctypes.OutgoingTransferTx
+	Batches        []cctypes.OutgoingTxBatch
+	BatchBlocks    []cctypes.OutgoingTxBatch
+	BatchConfirms  map[string]map[string]cctypes.MsgConfirmBatch // token|nonce -> oracle
+	Calls          []cctypes.OutgoingBridgeCall
+	CallIdx        map[string]bool
+	CallConfirms   map[uint64]map[string]cctypes.MsgBridgeCallConfirm
+	CallFromMsg    map[uint64]bool
+	Pending        map[uint64]cctypes.ExternalClaim
+	Seq            map[string]uint64
+	BridgeDenoms   map[string]string
+	Params         cctypes.Params
 }
 
 func (v *ChainView) OnlinePower() sdkmath.Int {
